@@ -67,6 +67,16 @@ def build_pool():
     P += [TA, TB, TC, TO, TN, TH, Vec(TA), Struct('STab', [u8, TA, u8]), Opt(TA)]
     # handles in containers
     P += [Vec(hd), Opt(hd), Var(hd, u8), Struct('SH', [u8, hd, hf, s8]), Tup(hd, hd)]
+    # version pool of Tables.tla (pool/tables.json, emitted by TLC): every definition reachable within 4 steps
+    import json as _json, os as _os
+    tj = _os.path.join(_os.path.dirname(_os.path.dirname(_os.path.abspath(__file__))), 'pool', 'tables.json')
+    if _os.path.exists(tj):
+        defs = _json.load(open(tj))["defs"]
+        vts = [from_schema(d) for d in defs]
+        P += vts
+        # a few placements inside structures / vectors / other tables
+        for t in vts[3::40]:
+            P += [Struct('S_' + t.tid, [u8, t, u16]), Vec(t)]
     # de-duplicate by tid preserving order
     seen, out = set(), []
     for t in P:
